@@ -52,8 +52,7 @@ Inductive psite := PLimitRect.
 Inductive outcome := Exit0 (dims : option isize) | Exit1 (e : errk) | Panic (p : psite).
 Inductive rres := ROk (s : isize) | RErr (e : errk) | RPanic (p : psite).
 
-(* `x as i32` of a finite float: truncation toward zero, saturating *)
-Definition Qtrunc (q : Q) : Z := if Qle_bool 0 q then Qfloor q else Qceiling q.
+(* Qtrunc / f2i32 (`x as i32` of a finite float) are in Model/CliPrims.v *)
 
 (* trim_pixmap + `.unwrap_or(pixmap)`: the size of the saved pixmap (every `?` inside trim_pixmap keeps the untrimmed one) *)
 Definition trim (fit : FitTo) (doc canvas : isize) (c : Q * Q * Q * Q) : rres :=
@@ -109,6 +108,67 @@ Definition render_svg (a : cli_args) (e : env) (docsize : Q * Q) : rres :=
       if negb (canvas_ok e size) then RErr ETargetTooLarge else
       if a_area_drawing a then trim fit doc size (e_content e) else ROk size
     end.
+
+(* ---- render_svg as an interpreter of the SOURCE-DERIVED control skeleton (Gen/C20Cli.v c20_render_*; round 4, 2nd pass).
+   State: the size bound by the last `let size = ..fit_to_size(..)?` and the canvas made by the last `new_pixmap(size)?`.
+   Proofs/Cli.v render_svg_is_skeleton: the hand-written render_svg above = run_render, for all inputs. *)
+Record rstate := { rs_size : option isize; rs_canvas : option isize }.
+Definition rstep_sem (s : rstep) (a : cli_args) (e : env) (docsize : Q * Q) (st : rstate) : rstate + rres :=
+  let fit := the_fit a in
+  let doc := to_int_size (fst docsize) (snd docsize) in
+  match s with
+  | RsLookup _ => match e_node e with NodeMissing => inr (RErr ENoNode) | _ => inl st end
+  | RsNodeBox _ => match e_node e with NodeZero => inr (RErr EZeroNode) | _ => inl st end
+  | RsFit src _ =>
+      let base := match src with
+                  | SrcDoc => Some doc
+                  | SrcNode => match e_node e with NodeBox x y w h => Some (to_int_size w h) | _ => None end
+                  end in
+      match base with
+      | None => inr (RErr EZeroNode)
+      | Some b => match fit_to_size fit b with
+                  | None => inr (RErr ETargetZero)
+                  | Some sz => inl {| rs_size := Some sz; rs_canvas := rs_canvas st |}
+                  end
+      end
+  | RsAlloc => match rs_size st with
+               | Some sz => if canvas_ok e sz then inl {| rs_size := rs_size st; rs_canvas := Some sz |} else inr (RErr ETargetTooLarge)
+               | None => inr (RErr ETargetZero)
+               end
+  | RsRenderNode | RsRender | RsDraw => inl st
+  | RsTrim => match rs_canvas st with
+              | Some c => match trim fit doc c (e_content e) with
+                          | ROk d => inl {| rs_size := rs_size st; rs_canvas := Some d |}
+                          | r => inr r
+                          end
+              | None => inr (RErr ETargetZero)
+              end
+  end.
+Fixpoint run_rsteps (l : list rstep) (a : cli_args) (e : env) (ds : Q * Q) (st : rstate) : rstate + rres :=
+  match l with
+  | [] => inl st
+  | s :: r => match rstep_sem s a e ds st with inl st' => run_rsteps r a e ds st' | inr x => inr x end
+  end.
+Definition run_render (a : cli_args) (e : env) (ds : Q * Q) : rres :=
+  let prog := if a_export_id a
+              then c20_render_export ++ (if a_area_page a then c20_render_export_page else [])
+              else c20_render_normal ++ (if a_area_drawing a then c20_render_normal_drawing else []) in
+  match run_rsteps prog a e ds {| rs_size := None; rs_canvas := None |} with
+  | inr r => r
+  | inl st => match rs_canvas st with Some c => ROk c | None => RErr ETargetZero end
+  end.
+(* the messages of the fallible steps, as documented (stderr is `Error: <msg>.`) *)
+Local Open Scope string_scope.
+Definition rstep_msg_ok (s : rstep) : bool :=
+  match s with
+  | RsLookup m => String.eqb m "SVG doesn't have '{}' ID"
+  | RsNodeBox m => String.eqb m "node has zero size"
+  | RsFit _ m => String.eqb m "target size is zero"
+  | _ => true
+  end.
+Local Close Scope string_scope.
+Definition render_msgs_ok : bool :=
+  forallb rstep_msg_ok (c20_render_export ++ c20_render_export_page ++ c20_render_normal ++ c20_render_normal_drawing).
 
 (* ---- --export-id: the transform handed to render_node and the place of the node on the page ----------------
    export_fit_source / c20_page_offset_scaled are source-derived (fixes bd4cb7e, 85fde2f). *)
@@ -217,7 +277,8 @@ Definition unwrap_ledger_ok : bool :=
   forallb unwrap_site_ok c20_unwrap_sites && c20_draw_guard_ok && c20_canvas_alloc_ok && c20_trim_shape_ok && c20_trim_fallback_ok.
 Local Close Scope string_scope.
 
-Definition outcome_code (o : outcome) : Z := match o with Exit0 _ => 0 | Exit1 _ => 1 | Panic _ => 101 end.
+(* a failed `process()` ends in main's std::process::exit(c20_main_err_exit) (source-derived) *)
+Definition outcome_code (o : outcome) : Z := match o with Exit0 _ => 0 | Exit1 _ => c20_main_err_exit | Panic _ => 101 end.
 Definition outcome_dims (o : outcome) : option isize := match o with Exit0 d => d | _ => None end.
 Definition opt_isize_eqb (a b : option isize) : bool :=
   match a, b with Some x, Some y => isize_eqb x y | None, None => true | _, _ => false end.
